@@ -12,7 +12,7 @@ LEVEL_NOTE = ("theorems: the generated date/time bit packing round-trips every c
 TRUSTED = ["Coq 8.16.1 kernel", "tools/translate.py", "the C library's localtime/mktime for POSIX TZ strings (oracle of the check)",
            "datetime.fromtimestamp / naive .timestamp() as wrappers of the same"]
 RULE = ("zones UTC, EST5EDT, AEST-10AEDT (southern DST), IST-5:30, NPT-5:45, NST3:30NDT x utc on/off x instants: a grid over 1980..2107, +-2 s around every DST "
-        "transition of 1987, 2024, 2100, month / leap boundaries, odd seconds, and out-of-range values; setinfo then getinfo must return the instant at "
+        "transition of 1987, 2024, 2100, month / leap boundaries, odd seconds, both ends of the range hour by hour (+-15 h: representable or not by zone and utc), and out-of-range values; setinfo then getinfo must return the instant at "
         "FAT resolution, the raw fields must hold the local (or UTC) broken-down time, new entries are stamped with the wall clock, out-of-range "
         "instants are rejected leaving the entry usable.  non-trivial = instant whose local offset differs from the offset at mount time, or a "
         "fractional-hour zone; distinct = (zone, utc, instant)")
@@ -38,6 +38,12 @@ def instants(rng, n):
 
 
 OUT_OF_RANGE = [100, 315532800 - 86400 * 2, 4354819200 + 86400 * 400, -5, 10 ** 12]
+# both ends of the representable range, hour by hour: whether such an instant is representable depends on the zone and on utc on / off
+# (the stored broken-down time must lie in 1980..2107): 1980-01-01 00:00:00Z and 2108-01-01 00:00:00Z -15 h .. +15 h
+EDGE = sorted({315532800 + k * 3600 + d for k in range(-15, 16) for d in (0, -1, 1)} | {4354819200 + k * 3600 + d for k in range(-15, 16) for d in (0, -2, -1, 1)})
+
+
+EDGE_SET = set(EDGE)
 
 
 def run(ctx):
@@ -46,7 +52,7 @@ def run(ctx):
     zones = ZONES if ctx.tier == "thorough" else ZONES[:5]
     for z in zones:
         env = dict(os.environ, TZ=z, PYTHONPATH=os.environ.get("VERIF_REPO", "/repo"))
-        p = subprocess.run(["/venv/bin/python", "-W", "ignore", os.path.join(core.VERIF, "harness", "tzprobe.py")], input=json.dumps({"instants": ins + OUT_OF_RANGE}),
+        p = subprocess.run(["/venv/bin/python", "-W", "ignore", os.path.join(core.VERIF, "harness", "tzprobe.py")], input=json.dumps({"instants": ins + OUT_OF_RANGE + EDGE}),
                            capture_output=True, text=True, env=env, timeout=600)
         if p.returncode != 0:
             ctx.tie_break(f"tzprobe failed under TZ={z}", p.stderr[-800:])
@@ -62,7 +68,10 @@ def run(ctx):
                     ctx.violation(f"TZ={z} utc={r['utc']}: new entry {r['stamp']} stamped {r['created'] - r['t0']:+.0f} s off the wall clock", f"stamp-off:{tag}", rep)
                 continue
             t = r["t"]
-            if t in OUT_OF_RANGE:
+            edge_out = t in EDGE_SET and not (r.get("year_here") is not None and 1980 <= r["year_here"] <= 2107)
+            if t in EDGE_SET:
+                ctx.dist["edge:" + ("outside" if edge_out else "representable")] += 1
+            if t in OUT_OF_RANGE or edge_out:
                 if r["set"] == "ok":
                     # clamping would be acceptable; storing garbage is not
                     if not (1980 <= r["raw_wrt"][0] <= 2107):
